@@ -1,17 +1,32 @@
 package main
 
-// T1 facts for C12 (pkg/storage/retention.go): the shape of DoScan and Start that the Lean model
-// (Ibx/Model/Retention.lean) assumes.  Anything not recognised is emitted as `none` / an unexpected list,
-// which the tie theorems of Ibx/Tie/Retention.lean do not accept.
+// T1 facts for C12 (pkg/storage/retention.go): the shape of DoScan / Start / Join that the Lean model
+// (Ibx/Model/Retention.lean) assumes, regenerated into lean/Ibx/Gen/Retention.lean.
+//
+// Every fact is STRUCTURAL: it is computed from go/ast shapes (selectors of exported / standard-library names,
+// operators, literals, channel statements, control-flow nesting, path conditions, data-flow identity through
+// ast.Ident.Obj) and never from the spelling of a local variable, receiver, unexported field, unexported helper,
+// label, comment or log text.  Unexported helpers of the package are followed as if inlined (two levels), an
+// `if c {A} else {B}` is the same as `if !c {B; continue}; A` or a tagless switch (path conditions are compared,
+// not statements).  The values are small closed vocabularies; whatever is not recognised is emitted as
+// "unknown" / false / an unexpected list, which no tie theorem of Ibx/Tie/Retention.lean accepts.
+//
+// The rt* toolkit of this file (package index, resolver, path-condition walker, wait classifier) is also used by
+// shutdown.go.
 
 import (
 	"fmt"
 	"go/ast"
 	"go/token"
+	"os"
+	"path/filepath"
+	"sort"
 	"strings"
 )
 
 func init() { extractors = append(extractors, extractRetention) }
+
+// ---- small legacy helpers (kept: harmless, generic)
 
 func oneLine(s string) string { return strings.Join(strings.Fields(s), " ") }
 
@@ -26,86 +41,6 @@ func containsCall(n ast.Node, name string) bool {
 	return found
 }
 
-type selInfo struct {
-	hasDone  bool
-	doneBody string
-	other    string // "default" or the source of the other comm clause
-}
-
-func selects(n ast.Node) []selInfo {
-	var res []selInfo
-	ast.Inspect(n, func(x ast.Node) bool {
-		ss, ok := x.(*ast.SelectStmt)
-		if !ok {
-			return true
-		}
-		si := selInfo{}
-		others := []string{}
-		for _, cl := range ss.Body.List {
-			cc := cl.(*ast.CommClause)
-			if cc.Comm == nil {
-				others = append(others, "default")
-				continue
-			}
-			c := oneLine(src(cc.Comm))
-			if c == "<-ctx.Done()" {
-				si.hasDone = true
-				// statements of the body, ignoring logging calls
-				b := []string{}
-				for _, st := range cc.Body {
-					s := oneLine(src(st))
-					if strings.HasPrefix(s, "slog.") {
-						continue
-					}
-					b = append(b, s)
-				}
-				si.doneBody = strings.Join(b, "; ")
-			} else {
-				others = append(others, c)
-			}
-		}
-		si.other = strings.Join(others, "|")
-		res = append(res, si)
-		return true
-	})
-	return res
-}
-
-// blocking operations outside a select: time.Sleep, a bare receive, a send, range over a channel-ish call, wg.Wait
-func bareBlocking(n ast.Node) []string {
-	var res []string
-	var walk func(x ast.Node, inComm bool)
-	walk = func(x ast.Node, inComm bool) {
-		if x == nil {
-			return
-		}
-		ast.Inspect(x, func(y ast.Node) bool {
-			switch v := y.(type) {
-			case *ast.CommClause:
-				// the comm itself is a guarded wait; the body is ordinary code
-				for _, st := range v.Body {
-					walk(st, false)
-				}
-				return false
-			case *ast.UnaryExpr:
-				if v.Op == token.ARROW {
-					res = append(res, oneLine(src(v)))
-				}
-			case *ast.SendStmt:
-				res = append(res, oneLine(src(v)))
-			case *ast.CallExpr:
-				f := src(v.Fun)
-				if f == "time.Sleep" || strings.HasSuffix(f, ".Wait") || strings.HasSuffix(f, ".Lock") {
-					res = append(res, oneLine(src(v)))
-				}
-			}
-			return true
-		})
-	}
-	walk(n, false)
-	return res
-}
-
 func optS(s string, ok bool) string {
 	if !ok {
 		return "none"
@@ -113,212 +48,1784 @@ func optS(s string, ok bool) string {
 	return "some " + leanStr(s)
 }
 
-func selList(l []selInfo) string {
-	p := []string{}
-	for _, s := range l {
-		b := "false"
-		if s.hasDone {
-			b = "true"
+// =====================================================================================================
+// rt toolkit
+// =====================================================================================================
+
+// rtPkg: all non-test files of one package directory, its functions by name, and per-object write counts.
+type rtPkg struct {
+	files   map[string]*ast.File
+	funcs   map[string][]*ast.FuncDecl
+	assigns map[*ast.Object]int // writes to a local (its `:=` included); address-taken counts as many
+}
+
+func rtLoadPkg(dir string) *rtPkg {
+	p := &rtPkg{files: map[string]*ast.File{}, funcs: map[string][]*ast.FuncDecl{}, assigns: map[*ast.Object]int{}}
+	ents, err := os.ReadDir(filepath.Join(repo, dir))
+	if err != nil {
+		return p
+	}
+	for _, e := range ents {
+		n := e.Name()
+		if e.IsDir() || !strings.HasSuffix(n, ".go") || strings.HasSuffix(n, "_test.go") || strings.HasPrefix(n, "verif_") {
+			continue
 		}
-		p = append(p, fmt.Sprintf("(%s, %s, %s)", b, leanStr(s.doneBody), leanStr(s.other)))
+		f := parse(filepath.Join(dir, n))
+		if f == nil {
+			continue
+		}
+		p.files[n] = f
+		for _, d := range f.Decls {
+			if fd, ok := d.(*ast.FuncDecl); ok && fd.Body != nil {
+				p.funcs[fd.Name.Name] = append(p.funcs[fd.Name.Name], fd)
+			}
+		}
+		bump := func(e ast.Expr, n int) {
+			if id, ok := rtUnparen(e).(*ast.Ident); ok && id.Obj != nil {
+				p.assigns[id.Obj] += n
+			}
+		}
+		ast.Inspect(f, func(x ast.Node) bool {
+			switch v := x.(type) {
+			case *ast.AssignStmt:
+				for _, l := range v.Lhs {
+					bump(l, 1)
+				}
+			case *ast.IncDecStmt:
+				bump(v.X, 1)
+			case *ast.UnaryExpr:
+				if v.Op == token.AND {
+					bump(v.X, 100)
+				}
+			case *ast.RangeStmt:
+				if v.Key != nil {
+					bump(v.Key, 1)
+				}
+				if v.Value != nil {
+					bump(v.Value, 1)
+				}
+			}
+			return true
+		})
+	}
+	return p
+}
+
+// method finds a method of the package by receiver type name and method name, in any file.
+func (p *rtPkg) method(recv, name string) *ast.FuncDecl {
+	for _, fd := range p.funcs[name] {
+		if fd.Recv == nil || len(fd.Recv.List) != 1 {
+			continue
+		}
+		t := fd.Recv.List[0].Type
+		if s, ok := t.(*ast.StarExpr); ok {
+			t = s.X
+		}
+		if id, ok := t.(*ast.Ident); ok && id.Name == recv {
+			return fd
+		}
+	}
+	return nil
+}
+
+func rtUnparen(e ast.Expr) ast.Expr {
+	for {
+		pe, ok := e.(*ast.ParenExpr)
+		if !ok {
+			return e
+		}
+		e = pe.X
+	}
+}
+
+func rtExported(name string) bool { return name != "" && name[0] >= 'A' && name[0] <= 'Z' }
+
+// helper: the same-package UNEXPORTED function / method a call refers to (nil if none / ambiguous), and the
+// receiver expression for a method call.
+func (p *rtPkg) helper(ce *ast.CallExpr) (*ast.FuncDecl, ast.Expr) {
+	switch f := rtUnparen(ce.Fun).(type) {
+	case *ast.Ident:
+		if rtExported(f.Name) || (f.Obj != nil && f.Obj.Kind != ast.Fun) {
+			return nil, nil
+		}
+		var hit *ast.FuncDecl
+		for _, fd := range p.funcs[f.Name] {
+			if fd.Recv == nil {
+				if hit != nil {
+					return nil, nil
+				}
+				hit = fd
+			}
+		}
+		return hit, nil
+	case *ast.SelectorExpr:
+		if rtExported(f.Sel.Name) {
+			return nil, nil
+		}
+		// the receiver must be a variable (not an imported package)
+		root := rtUnparen(f.X)
+		for {
+			if s, ok := root.(*ast.SelectorExpr); ok {
+				root = rtUnparen(s.X)
+				continue
+			}
+			break
+		}
+		if id, ok := root.(*ast.Ident); !ok || id.Obj == nil {
+			return nil, nil
+		}
+		var hit *ast.FuncDecl
+		for _, fd := range p.funcs[f.Sel.Name] {
+			if fd.Recv != nil {
+				if hit != nil {
+					return nil, nil
+				}
+				hit = fd
+			}
+		}
+		return hit, f.X
+	}
+	return nil, nil
+}
+
+// rtEnv binds the parameters / receiver of an inlined helper to the argument expressions of the call site.
+type rtEnv struct {
+	m  map[*ast.Object]ast.Expr
+	up *rtEnv
+}
+
+func rtBind(fd *ast.FuncDecl, recv ast.Expr, args []ast.Expr, up *rtEnv) *rtEnv {
+	e := &rtEnv{m: map[*ast.Object]ast.Expr{}, up: up}
+	if fd.Recv != nil && len(fd.Recv.List) == 1 && len(fd.Recv.List[0].Names) == 1 && recv != nil {
+		if o := fd.Recv.List[0].Names[0].Obj; o != nil {
+			e.m[o] = recv
+		}
+	}
+	var names []*ast.Ident
+	if fd.Type.Params != nil {
+		for _, f := range fd.Type.Params.List {
+			names = append(names, f.Names...)
+		}
+	}
+	if len(names) == len(args) {
+		for i, n := range names {
+			if n.Obj != nil {
+				e.m[n.Obj] = args[i]
+			}
+		}
+	}
+	return e
+}
+
+// resolve follows data flow: a bound helper parameter becomes the call-site argument, a local written exactly
+// once becomes its defining expression, a call of a one-line `return e` helper becomes e.
+func (p *rtPkg) resolve(e ast.Expr, env *rtEnv) (ast.Expr, *rtEnv) {
+outer:
+	for i := 0; i < 16; i++ {
+		e = rtUnparen(e)
+		id, ok := e.(*ast.Ident)
+		if !ok || id.Obj == nil {
+			if ce, ok := e.(*ast.CallExpr); ok {
+				if fd, recv := p.helper(ce); fd != nil && len(fd.Body.List) == 1 {
+					if rs, ok := fd.Body.List[0].(*ast.ReturnStmt); ok && len(rs.Results) == 1 {
+						env = rtBind(fd, recv, ce.Args, env)
+						e = rs.Results[0]
+						continue
+					}
+				}
+			}
+			return e, env
+		}
+		for l := env; l != nil; l = l.up {
+			if v, ok := l.m[id.Obj]; ok {
+				e, env = v, l.up
+				continue outer
+			}
+		}
+		switch d := id.Obj.Decl.(type) {
+		case *ast.AssignStmt:
+			if p.assigns[id.Obj] == 1 && d.Tok == token.DEFINE && len(d.Lhs) == len(d.Rhs) {
+				for k, l := range d.Lhs {
+					if li, ok := l.(*ast.Ident); ok && li.Obj == id.Obj {
+						e = d.Rhs[k]
+						continue outer
+					}
+				}
+			}
+		case *ast.ValueSpec:
+			if p.assigns[id.Obj] == 0 && len(d.Names) == len(d.Values) {
+				for k, n := range d.Names {
+					if n.Obj == id.Obj {
+						e = d.Values[k]
+						continue outer
+					}
+				}
+			}
+		}
+		return e, env
+	}
+	return e, env
+}
+
+// obj: the object an expression resolves to (nil if it is not a plain variable).
+func (p *rtPkg) obj(e ast.Expr, env *rtEnv) *ast.Object {
+	r, _ := p.resolve(e, env)
+	if id, ok := r.(*ast.Ident); ok {
+		return id.Obj
+	}
+	return nil
+}
+
+// field: e resolves to <v>.F with v a receiver or parameter; returns F ("" otherwise).
+func (p *rtPkg) field(e ast.Expr, env *rtEnv) string {
+	r, renv := p.resolve(e, env)
+	se, ok := r.(*ast.SelectorExpr)
+	if !ok {
+		return ""
+	}
+	o := p.obj(se.X, renv)
+	if o == nil {
+		return ""
+	}
+	if _, ok := o.Decl.(*ast.Field); !ok {
+		return ""
+	}
+	return se.Sel.Name
+}
+
+func rtIsPkgSel(e ast.Expr, pkg, name string) bool {
+	se, ok := rtUnparen(e).(*ast.SelectorExpr)
+	if !ok || se.Sel.Name != name {
+		return false
+	}
+	id, ok := rtUnparen(se.X).(*ast.Ident)
+	return ok && id.Name == pkg && id.Obj == nil
+}
+
+// pkgCall: e resolves to a call pkg.fn(args).
+func (p *rtPkg) pkgCall(e ast.Expr, env *rtEnv, pkg, fn string) ([]ast.Expr, *rtEnv, bool) {
+	r, renv := p.resolve(e, env)
+	ce, ok := r.(*ast.CallExpr)
+	if !ok || !rtIsPkgSel(ce.Fun, pkg, fn) {
+		return nil, nil, false
+	}
+	return ce.Args, renv, true
+}
+
+// methodCall: e resolves to a call X.name(args).
+func (p *rtPkg) methodCall(e ast.Expr, env *rtEnv, name string) (ast.Expr, []ast.Expr, *rtEnv, bool) {
+	r, renv := p.resolve(e, env)
+	ce, ok := r.(*ast.CallExpr)
+	if !ok {
+		return nil, nil, nil, false
+	}
+	se, ok := rtUnparen(ce.Fun).(*ast.SelectorExpr)
+	if !ok || se.Sel.Name != name {
+		return nil, nil, nil, false
+	}
+	return se.X, ce.Args, renv, true
+}
+
+// isCtx: e resolves to a parameter of type context.Context.
+func (p *rtPkg) isCtx(e ast.Expr, env *rtEnv) bool {
+	o := p.obj(e, env)
+	if o == nil {
+		return false
+	}
+	f, ok := o.Decl.(*ast.Field)
+	return ok && rtIsPkgSel(f.Type, "context", "Context")
+}
+
+// rtRecvChan: the channel expression a statement / comm receives from (nil if it is not a receive).
+func rtRecvChan(s ast.Stmt) ast.Expr {
+	var e ast.Expr
+	switch v := s.(type) {
+	case *ast.ExprStmt:
+		e = v.X
+	case *ast.AssignStmt:
+		if len(v.Rhs) == 1 {
+			e = v.Rhs[0]
+		}
+	}
+	if e == nil {
+		return nil
+	}
+	if u, ok := rtUnparen(e).(*ast.UnaryExpr); ok && u.Op == token.ARROW {
+		return u.X
+	}
+	return nil
+}
+
+// isDoneRecv: the comm receives from <ctx>.Done(), <ctx> a context.Context parameter.
+func (p *rtPkg) isDoneRecv(comm ast.Stmt, env *rtEnv) bool {
+	ch := rtRecvChan(comm)
+	if ch == nil {
+		return false
+	}
+	x, args, renv, ok := p.methodCall(ch, env, "Done")
+	return ok && len(args) == 0 && p.isCtx(x, renv)
+}
+
+// rtCalls: the call expressions of a node in source order, not descending into function literals.
+func rtCalls(n ast.Node) []*ast.CallExpr {
+	var res []*ast.CallExpr
+	if n == nil {
+		return res
+	}
+	ast.Inspect(n, func(x ast.Node) bool {
+		switch v := x.(type) {
+		case *ast.FuncLit:
+			return false
+		case *ast.CallExpr:
+			res = append(res, v)
+		}
+		return true
+	})
+	return res
+}
+
+func rtCallName(ce *ast.CallExpr) string {
+	switch f := rtUnparen(ce.Fun).(type) {
+	case *ast.SelectorExpr:
+		return f.Sel.Name
+	case *ast.Ident:
+		return f.Name
+	}
+	return ""
+}
+
+// rtIsLogging: an expression statement that is a pure method chain ending in a zerolog / log terminal
+// (Msg, Msgf, Send, MsgFunc, Print*, …): wording and fields do not matter.
+func rtIsLogging(s ast.Stmt) bool {
+	es, ok := s.(*ast.ExprStmt)
+	if !ok {
+		return false
+	}
+	ce, ok := es.X.(*ast.CallExpr)
+	if !ok {
+		return false
+	}
+	se, ok := ce.Fun.(*ast.SelectorExpr)
+	if !ok {
+		return false
+	}
+	switch se.Sel.Name {
+	case "Msg", "Msgf", "Send", "MsgFunc", "Print", "Printf", "Println":
+	default:
+		return false
+	}
+	var e ast.Expr = se.X
+	for {
+		switch v := rtUnparen(e).(type) {
+		case *ast.CallExpr:
+			s2, ok := v.Fun.(*ast.SelectorExpr)
+			if !ok {
+				return false
+			}
+			e = s2.X
+		case *ast.SelectorExpr:
+			e = v.X
+		case *ast.Ident:
+			return true
+		default:
+			return false
+		}
+	}
+}
+
+// ---- path-condition walker
+
+// rtAtom: one conjunct of a path condition: a boolean expression that holds / does not hold, or the select
+// case that was taken.
+type rtAtom struct {
+	cond   ast.Expr
+	pos    bool
+	comm   *ast.CommClause
+	opaque bool
+	env    *rtEnv
+}
+
+// rtLeaf: a simple statement (st), the head expression of an if / switch (head), or a select / for / range
+// statement itself (st), with the condition under which it is reached.
+type rtLeaf struct {
+	st    ast.Stmt
+	head  ast.Expr
+	pc    []rtAtom
+	env   *rtEnv
+	loops []ast.Stmt // enclosing loops inside the walked root, outermost first
+	owner int        // 0: a `return` here returns from the walked root; >0: from an inlined helper
+}
+
+func (l *rtLeaf) node() ast.Node {
+	if l.st != nil {
+		return l.st
+	}
+	return l.head
+}
+
+// scope: the part of the leaf that is evaluated at the leaf itself (not the bodies of a loop / select).
+func (l *rtLeaf) scope() ast.Node {
+	switch v := l.st.(type) {
+	case *ast.ForStmt:
+		if v.Cond == nil {
+			return nil
+		}
+		return v.Cond
+	case *ast.RangeStmt:
+		return v.X
+	case *ast.SelectStmt:
+		return nil
+	}
+	return l.node()
+}
+
+// rtIdentObj: the object of a plain identifier (no data-flow resolution).
+func rtIdentObj(e ast.Expr) *ast.Object {
+	if id, ok := rtUnparen(e).(*ast.Ident); ok {
+		return id.Obj
+	}
+	return nil
+}
+
+type rtCx struct {
+	env   *rtEnv
+	loops []ast.Stmt
+	owner int
+}
+
+type rtWalk struct {
+	p       *rtPkg
+	leaves  []rtLeaf
+	stack   []*ast.FuncDecl
+	inlined map[*ast.FuncDecl]bool
+	unknown bool // goto / fallthrough / type switch: control flow not understood
+}
+
+func rtNewWalk(p *rtPkg) *rtWalk { return &rtWalk{p: p, inlined: map[*ast.FuncDecl]bool{}} }
+
+func rtPush(pc []rtAtom, a ...rtAtom) []rtAtom {
+	r := make([]rtAtom, 0, len(pc)+len(a))
+	r = append(r, pc...)
+	return append(r, a...)
+}
+
+// rtCondAtoms: the conjuncts that hold when c is true (pos) / false (neg).
+func rtCondAtoms(c ast.Expr, env *rtEnv) (pos, neg []rtAtom) {
+	c = rtUnparen(c)
+	if u, ok := c.(*ast.UnaryExpr); ok && u.Op == token.NOT {
+		n, p := rtCondAtoms(u.X, env)
+		return p, n
+	}
+	if b, ok := c.(*ast.BinaryExpr); ok {
+		switch b.Op {
+		case token.LAND:
+			p1, _ := rtCondAtoms(b.X, env)
+			p2, _ := rtCondAtoms(b.Y, env)
+			return append(p1, p2...), []rtAtom{{cond: c, pos: false, env: env}}
+		case token.LOR:
+			_, n1 := rtCondAtoms(b.X, env)
+			_, n2 := rtCondAtoms(b.Y, env)
+			return []rtAtom{{cond: c, pos: true, env: env}}, append(n1, n2...)
+		}
+	}
+	return []rtAtom{{cond: c, pos: true, env: env}}, []rtAtom{{cond: c, pos: false, env: env}}
+}
+
+// rtHasLocalBreak: an unlabelled break that leaves exactly this switch / select.
+func rtHasLocalBreak(body *ast.BlockStmt) bool {
+	found := false
+	var visit func(n ast.Node, top bool)
+	visit = func(n ast.Node, top bool) {
+		ast.Inspect(n, func(x ast.Node) bool {
+			if x == n {
+				return true
+			}
+			switch v := x.(type) {
+			case *ast.ForStmt, *ast.RangeStmt, *ast.SwitchStmt, *ast.TypeSwitchStmt, *ast.SelectStmt, *ast.FuncLit:
+				return false
+			case *ast.BranchStmt:
+				if v.Tok == token.BREAK && v.Label == nil {
+					found = true
+				}
+			}
+			return true
+		})
+	}
+	visit(body, true)
+	return found
+}
+
+func (w *rtWalk) simple(st ast.Stmt, head ast.Expr, pc []rtAtom, cx rtCx) {
+	var node ast.Node = st
+	if st == nil {
+		node = head
+	}
+	_, isGo := st.(*ast.GoStmt)
+	_, isDefer := st.(*ast.DeferStmt)
+	tail := false
+	if !isGo && !isDefer {
+		if rs, ok := st.(*ast.ReturnStmt); ok && len(rs.Results) == 1 {
+			if ce, ok := rtUnparen(rs.Results[0]).(*ast.CallExpr); ok {
+				if fd, _ := w.p.helper(ce); fd != nil {
+					tail = true
+				}
+			}
+		}
+		for _, ce := range rtCalls(node) {
+			fd, recv := w.p.helper(ce)
+			if fd == nil || len(w.stack) >= 3 {
+				continue
+			}
+			on := false
+			for _, s := range w.stack {
+				if s == fd {
+					on = true
+				}
+			}
+			if on {
+				continue
+			}
+			cx2 := rtCx{env: rtBind(fd, recv, ce.Args, cx.env), loops: cx.loops, owner: cx.owner + 1}
+			if tail {
+				cx2.owner = cx.owner
+			}
+			w.inlined[fd] = true
+			w.stack = append(w.stack, fd)
+			w.list(fd.Body.List, pc, cx2)
+			w.stack = w.stack[:len(w.stack)-1]
+		}
+	}
+	if tail {
+		return
+	}
+	w.leaves = append(w.leaves, rtLeaf{st: st, head: head, pc: rtPush(pc), env: cx.env, loops: cx.loops, owner: cx.owner})
+}
+
+func (w *rtWalk) list(stmts []ast.Stmt, pc []rtAtom, cx rtCx) bool {
+	for _, s := range stmts {
+		jump, after := w.stmt(s, pc, cx)
+		if jump {
+			return true
+		}
+		pc = after
+	}
+	return false
+}
+
+func (w *rtWalk) stmt(s ast.Stmt, pc []rtAtom, cx rtCx) (bool, []rtAtom) {
+	switch v := s.(type) {
+	case *ast.BlockStmt:
+		return w.list(v.List, pc, cx), pc
+	case *ast.LabeledStmt:
+		return w.stmt(v.Stmt, pc, cx)
+	case *ast.IfStmt:
+		if v.Init != nil {
+			w.simple(v.Init, nil, pc, cx)
+		}
+		w.simple(nil, v.Cond, pc, cx)
+		pos, neg := rtCondAtoms(v.Cond, cx.env)
+		ja := w.list(v.Body.List, rtPush(pc, pos...), cx)
+		jb := false
+		if v.Else != nil {
+			jb, _ = w.stmt(v.Else, rtPush(pc, neg...), cx)
+		}
+		switch {
+		case ja && jb:
+			return true, pc
+		case ja:
+			return false, rtPush(pc, neg...)
+		case jb:
+			return false, rtPush(pc, pos...)
+		}
+		return false, pc
+	case *ast.SwitchStmt:
+		if v.Init != nil {
+			w.simple(v.Init, nil, pc, cx)
+		}
+		if v.Tag != nil {
+			w.simple(nil, v.Tag, pc, cx)
+		}
+		var negs []rtAtom
+		var def *ast.CaseClause
+		allJump, hasDefault := true, false
+		for _, c := range v.Body.List {
+			cc := c.(*ast.CaseClause)
+			if cc.List == nil {
+				def, hasDefault = cc, true
+				continue
+			}
+			var cond ast.Expr
+			for _, e := range cc.List {
+				x := e
+				if v.Tag != nil {
+					x = &ast.BinaryExpr{X: v.Tag, Op: token.EQL, Y: e}
+				}
+				if cond == nil {
+					cond = x
+				} else {
+					cond = &ast.BinaryExpr{X: cond, Op: token.LOR, Y: x}
+				}
+			}
+			pos, neg := rtCondAtoms(cond, cx.env)
+			if n := len(cc.Body); n > 0 {
+				if b, ok := cc.Body[n-1].(*ast.BranchStmt); ok && b.Tok == token.FALLTHROUGH {
+					w.unknown = true
+				}
+			}
+			if !w.list(cc.Body, rtPush(rtPush(pc, negs...), pos...), cx) {
+				allJump = false
+			}
+			negs = append(negs, neg...)
+		}
+		if def != nil {
+			if !w.list(def.Body, rtPush(pc, negs...), cx) {
+				allJump = false
+			}
+		}
+		local := rtHasLocalBreak(v.Body)
+		if allJump && !local {
+			if hasDefault {
+				return true, pc
+			}
+			return false, rtPush(pc, negs...)
+		}
+		return false, pc
+	case *ast.TypeSwitchStmt:
+		w.unknown = true
+		for _, c := range v.Body.List {
+			w.list(c.(*ast.CaseClause).Body, rtPush(pc, rtAtom{opaque: true}), cx)
+		}
+		return false, pc
+	case *ast.SelectStmt:
+		w.leaves = append(w.leaves, rtLeaf{st: v, pc: rtPush(pc), env: cx.env, loops: cx.loops, owner: cx.owner})
+		allJump := true
+		for _, c := range v.Body.List {
+			cc := c.(*ast.CommClause)
+			if !w.list(cc.Body, rtPush(pc, rtAtom{comm: cc, env: cx.env}), cx) {
+				allJump = false
+			}
+		}
+		if allJump && len(v.Body.List) > 0 && !rtHasLocalBreak(v.Body) {
+			return true, pc
+		}
+		return false, pc
+	case *ast.ForStmt:
+		if v.Init != nil {
+			w.simple(v.Init, nil, pc, cx)
+		}
+		w.leaves = append(w.leaves, rtLeaf{st: v, pc: rtPush(pc), env: cx.env, loops: cx.loops, owner: cx.owner})
+		cx2 := rtCx{env: cx.env, loops: append(append([]ast.Stmt{}, cx.loops...), v), owner: cx.owner}
+		w.list(v.Body.List, pc, cx2)
+		if v.Post != nil {
+			w.simple(v.Post, nil, pc, cx2)
+		}
+		return false, pc
+	case *ast.RangeStmt:
+		w.leaves = append(w.leaves, rtLeaf{st: v, pc: rtPush(pc), env: cx.env, loops: cx.loops, owner: cx.owner})
+		cx2 := rtCx{env: cx.env, loops: append(append([]ast.Stmt{}, cx.loops...), v), owner: cx.owner}
+		w.list(v.Body.List, pc, cx2)
+		return false, pc
+	case *ast.ReturnStmt:
+		w.simple(v, nil, pc, cx)
+		return true, pc
+	case *ast.BranchStmt:
+		if v.Tok == token.GOTO || v.Tok == token.FALLTHROUGH {
+			w.unknown = true
+		}
+		w.simple(v, nil, pc, cx)
+		return true, pc
+	case *ast.ExprStmt:
+		w.simple(v, nil, pc, cx)
+		if ce, ok := v.X.(*ast.CallExpr); ok {
+			if id, ok := ce.Fun.(*ast.Ident); ok && id.Name == "panic" && id.Obj == nil {
+				return true, pc
+			}
+			if rtIsPkgSel(ce.Fun, "os", "Exit") {
+				return true, pc
+			}
+		}
+		return false, pc
+	case nil:
+		return false, pc
+	default:
+		w.simple(s, nil, pc, cx)
+		return false, pc
+	}
+}
+
+// rtWalkBody walks a function body (helpers inlined) and returns the walker.
+func rtWalkBody(p *rtPkg, body *ast.BlockStmt, env *rtEnv) *rtWalk {
+	w := rtNewWalk(p)
+	if body != nil {
+		w.list(body.List, nil, rtCx{env: env})
+	}
+	return w
+}
+
+// ---- waits
+
+// rtWait: one blocking operation.  kind: select | recv | send | sleep | wgWait | lock | join.
+// For a select: doneExit = what the `<-ctx.Done()` case does (none when there is no such case);
+// others = the remaining cases (sorted): default | timeAfter:<role> | recv | send, with `:<effect>` appended when the
+// case body does more than fall through.
+type rtWait struct {
+	kind     string
+	doneExit string
+	others   []string
+	leaf     *rtLeaf
+	sel      *ast.SelectStmt
+}
+
+// rtDurRole names the duration expression handed to time.After.
+type rtDurRole func(e ast.Expr, env *rtEnv) string
+
+// clauseEffect: what a select-case body does, logging ignored.
+func (p *rtPkg) clauseEffect(body []ast.Stmt, loops []ast.Stmt) string {
+	var rest []ast.Stmt
+	for _, s := range body {
+		if rtIsLogging(s) {
+			continue
+		}
+		if _, ok := s.(*ast.EmptyStmt); ok {
+			continue
+		}
+		rest = append(rest, s)
+	}
+	if len(rest) == 0 {
+		return "fallsThrough"
+	}
+	if len(rest) > 1 {
+		return "other"
+	}
+	switch v := rest[0].(type) {
+	case *ast.ReturnStmt:
+		if len(v.Results) == 0 {
+			return "return"
+		}
+		if len(v.Results) == 1 {
+			if id, ok := rtUnparen(v.Results[0]).(*ast.Ident); ok && id.Obj == nil {
+				switch id.Name {
+				case "false":
+					return "returnFalse"
+				case "true":
+					return "returnTrue"
+				}
+			}
+		}
+		return "returnOther"
+	case *ast.BranchStmt:
+		switch v.Tok {
+		case token.BREAK:
+			if v.Label == nil {
+				return "breakSelect"
+			}
+			if v.Label.Obj != nil {
+				if ls, ok := v.Label.Obj.Decl.(*ast.LabeledStmt); ok && len(loops) > 0 && ls.Stmt == loops[0] {
+					return "breakLoop"
+				}
+			}
+			return "breakOther"
+		case token.CONTINUE:
+			return "continue"
+		}
+	}
+	return "other"
+}
+
+func (p *rtPkg) waits(leaves []rtLeaf, role rtDurRole) []rtWait {
+	var res []rtWait
+	for i := range leaves {
+		l := &leaves[i]
+		if sel, ok := l.st.(*ast.SelectStmt); ok {
+			wt := rtWait{kind: "select", doneExit: "none", leaf: l, sel: sel}
+			for _, c := range sel.Body.List {
+				cc := c.(*ast.CommClause)
+				eff := p.clauseEffect(cc.Body, l.loops)
+				if cc.Comm != nil && p.isDoneRecv(cc.Comm, l.env) {
+					if wt.doneExit != "none" {
+						wt.doneExit = "other"
+					} else {
+						wt.doneExit = eff
+					}
+					continue
+				}
+				tok := "other"
+				switch {
+				case cc.Comm == nil:
+					tok = "default"
+				case rtRecvChan(cc.Comm) != nil:
+					tok = "recv"
+					if args, aenv, ok := p.pkgCall(rtRecvChan(cc.Comm), l.env, "time", "After"); ok && len(args) == 1 {
+						r := "other"
+						if role != nil {
+							r = role(args[0], aenv)
+						}
+						tok = "timeAfter:" + r
+					}
+				default:
+					if _, ok := cc.Comm.(*ast.SendStmt); ok {
+						tok = "send"
+					}
+				}
+				if eff != "fallsThrough" {
+					tok += ":" + eff
+				}
+				wt.others = append(wt.others, tok)
+			}
+			sort.Strings(wt.others)
+			res = append(res, wt)
+			continue
+		}
+		n := l.scope()
+		if n == nil {
+			continue
+		}
+		ast.Inspect(n, func(x ast.Node) bool {
+			switch v := x.(type) {
+			case *ast.FuncLit:
+				return false
+			case *ast.UnaryExpr:
+				if v.Op == token.ARROW {
+					res = append(res, rtWait{kind: "recv", doneExit: "none", leaf: l})
+				}
+			case *ast.SendStmt:
+				res = append(res, rtWait{kind: "send", doneExit: "none", leaf: l})
+			case *ast.CallExpr:
+				switch {
+				case rtIsPkgSel(v.Fun, "time", "Sleep"):
+					res = append(res, rtWait{kind: "sleep", doneExit: "none", leaf: l})
+				case rtCallName(v) == "Wait":
+					res = append(res, rtWait{kind: "wgWait", doneExit: "none", leaf: l})
+				case rtCallName(v) == "Lock" || rtCallName(v) == "RLock":
+					res = append(res, rtWait{kind: "lock", doneExit: "none", leaf: l})
+				case rtCallName(v) == "Join":
+					res = append(res, rtWait{kind: "join", doneExit: "none", leaf: l})
+				}
+			}
+			return true
+		})
+	}
+	return res
+}
+
+func rtWaitList(ws []rtWait) string {
+	p := []string{}
+	for _, w := range ws {
+		p = append(p, fmt.Sprintf("(%s, %s, %s)", leanStr(w.kind), leanStr(w.doneExit), strList(w.others)))
 	}
 	return "[" + strings.Join(p, ", ") + "]"
 }
 
-func extractRetention() {
-	g := gen("Retention")
-	f := parse("pkg/storage/retention.go")
-	ds := fn(f, "RetentionScanner", "DoScan")
-	st := fn(f, "RetentionScanner", "Start")
+// rtNilCmp: cond compares the variable o with nil; returns (true, isNotEqual).
+func (p *rtPkg) nilCmp(cond ast.Expr, env *rtEnv, o *ast.Object) (bool, bool) {
+	b, ok := rtUnparen(cond).(*ast.BinaryExpr)
+	if !ok || (b.Op != token.NEQ && b.Op != token.EQL) {
+		return false, false
+	}
+	isNil := func(e ast.Expr) bool {
+		id, ok := rtUnparen(e).(*ast.Ident)
+		return ok && id.Name == "nil" && id.Obj == nil
+	}
+	isVar := func(e ast.Expr) bool {
+		id, ok := rtUnparen(e).(*ast.Ident)
+		return ok && id.Obj != nil && id.Obj == o
+	}
+	if (isVar(b.X) && isNil(b.Y)) || (isNil(b.X) && isVar(b.Y)) {
+		return true, b.Op == token.NEQ
+	}
+	return false, false
+}
 
-	// ---- DoScan
-	cutoff, cutoffOK := "", false
-	var visitLit *ast.FuncLit
-	visitAssign := ""
-	errCheck, errCheckOK := "", false
-	if ds != nil {
-		for i, s := range ds.Body.List {
-			as, ok := s.(*ast.AssignStmt)
-			if !ok || len(as.Lhs) != 1 || len(as.Rhs) != 1 {
+// errHolds: the atom says "the error variable o is non-nil".
+func (p *rtPkg) errHolds(a rtAtom, o *ast.Object) bool {
+	if a.cond == nil {
+		return false
+	}
+	ok, neq := p.nilCmp(a.cond, a.env, o)
+	return ok && neq == a.pos
+}
+
+func (p *rtPkg) errAbsent(a rtAtom, o *ast.Object) bool {
+	if a.cond == nil {
+		return false
+	}
+	ok, neq := p.nilCmp(a.cond, a.env, o)
+	return ok && neq != a.pos
+}
+
+// errEffect: how the error result of the call `ce` (found in leaf k of leaves) is handled:
+// ignored | logOnly | leavesLoop | returns | other | unknown.  `okContinue`: a `continue` counts as nothing.
+func (p *rtPkg) errEffect(leaves []rtLeaf, k int, ce *ast.CallExpr) string {
+	l := leaves[k]
+	var eo *ast.Object
+	switch v := l.st.(type) {
+	case *ast.ExprStmt:
+		if rtUnparen(v.X) == ast.Expr(ce) {
+			return "ignored"
+		}
+		return "unknown"
+	case *ast.AssignStmt:
+		if len(v.Rhs) != 1 || rtUnparen(v.Rhs[0]) != ast.Expr(ce) || len(v.Lhs) != 1 {
+			return "unknown"
+		}
+		id, ok := v.Lhs[0].(*ast.Ident)
+		if !ok {
+			return "unknown"
+		}
+		if id.Name == "_" {
+			return "ignored"
+		}
+		eo = id.Obj
+	default:
+		return "unknown"
+	}
+	if eo == nil {
+		return "unknown"
+	}
+	tested := false
+	res := "logOnly"
+	worse := func(s string) {
+		if res == "logOnly" || s == "other" {
+			res = s
+		}
+	}
+	for i := k + 1; i < len(leaves); i++ {
+		m := leaves[i]
+		in := false
+		for _, a := range m.pc {
+			if p.errHolds(a, eo) {
+				in = true
+			}
+			if p.errHolds(a, eo) || p.errAbsent(a, eo) {
+				tested = true
+			}
+		}
+		if !in || m.st == nil {
+			continue
+		}
+		switch v := m.st.(type) {
+		case *ast.ReturnStmt:
+			if m.owner == l.owner {
+				worse("returns")
+			} else {
+				worse("other")
+			}
+		case *ast.BranchStmt:
+			if v.Tok == token.CONTINUE && v.Label == nil {
 				continue
 			}
-			if src(as.Lhs[0]) == "cutoff" {
-				cutoff, cutoffOK = oneLine(src(as.Rhs[0])), true
-			}
-			if ce, ok := as.Rhs[0].(*ast.CallExpr); ok && strings.HasSuffix(src(ce.Fun), ".VisitMailboxes") && len(ce.Args) == 1 {
-				visitAssign = oneLine(src(as.Lhs[0])) + " := " + src(ce.Fun)
-				if fl, ok := ce.Args[0].(*ast.FuncLit); ok {
-					visitLit = fl
-				}
-				if i+1 < len(ds.Body.List) {
-					if is, ok := ds.Body.List[i+1].(*ast.IfStmt); ok && is.Init == nil && is.Else == nil && len(is.Body.List) == 1 {
-						errCheck, errCheckOK = "if "+oneLine(src(is.Cond))+" { "+oneLine(src(is.Body.List[0]))+" }", true
-					}
-				}
+			worse("leavesLoop")
+		case *ast.EmptyStmt:
+		default:
+			if !rtIsLogging(m.st) {
+				worse("other")
 			}
 		}
 	}
-	g.def("cutoffExpr", "Option String", optS(cutoff, cutoffOK), "right-hand side of `cutoff :=` in DoScan")
-	g.def("visitCall", "String", leanStr(visitAssign), "how DoScan calls VisitMailboxes")
-	g.def("visitErrCheck", "Option String", optS(errCheck, errCheckOK), "the statement right after the VisitMailboxes call")
+	if !tested {
+		return "ignored"
+	}
+	return res
+}
 
-	// inside the callback
-	rangeOver, rangeOK := "", false
-	guard, guardOK := "", false
-	rmArgs, rmOK := "", false
-	rmErrBody := ""
-	elseHasRemove := false
-	var rets []string
-	nRemove := 0
-	if visitLit != nil {
-		for _, s := range visitLit.Body.List {
-			if rs, ok := s.(*ast.RangeStmt); ok {
-				rangeOver, rangeOK = oneLine("for "+src(rs.Key)+", "+src(rs.Value)+" := range "+src(rs.X)), true
-				// the guarded removal
-				for _, bs := range rs.Body.List {
-					is, ok := bs.(*ast.IfStmt)
-					if !ok {
-						continue
-					}
-					if containsCall(is.Body, ".RemoveMessage") {
-						guard, guardOK = oneLine(src(is.Cond)), true
-					}
-					if is.Else != nil && containsCall(is.Else, ".RemoveMessage") {
-						elseHasRemove = true
-					}
-				}
+// rtLoopExits: statements inside the body of loop that leave it (return, break out of it, goto, continue of an
+// outer loop); function literals are not entered.
+func rtLoopExits(loop ast.Stmt, body *ast.BlockStmt) int {
+	n := 0
+	var visit func(x ast.Node, breakable bool)
+	visit = func(x ast.Node, breakable bool) {
+		ast.Inspect(x, func(y ast.Node) bool {
+			if y == x {
+				return true
 			}
-		}
-		ast.Inspect(visitLit, func(x ast.Node) bool {
-			if ce, ok := x.(*ast.CallExpr); ok && strings.HasSuffix(src(ce.Fun), ".RemoveMessage") {
-				nRemove++
-				a := []string{}
-				for _, e := range ce.Args {
-					a = append(a, oneLine(src(e)))
-				}
-				rmArgs, rmOK = src(ce.Fun)+"("+strings.Join(a, ", ")+")", true
-			}
-			if is, ok := x.(*ast.IfStmt); ok && is.Init != nil && containsCall(is.Init, ".RemoveMessage") {
-				// what happens when RemoveMessage fails: statements of the `err != nil` branch that are not logging
-				b := []string{}
-				for _, st := range is.Body.List {
-					s := oneLine(src(st))
-					if strings.HasPrefix(s, "slog.") {
-						continue
+			switch v := y.(type) {
+			case *ast.FuncLit:
+				return false
+			case *ast.ForStmt, *ast.RangeStmt, *ast.SwitchStmt, *ast.TypeSwitchStmt, *ast.SelectStmt:
+				visit(v, true)
+				return false
+			case *ast.ReturnStmt:
+				n++
+			case *ast.BranchStmt:
+				switch v.Tok {
+				case token.GOTO:
+					n++
+				case token.BREAK, token.CONTINUE:
+					if v.Label == nil {
+						if v.Tok == token.BREAK && !breakable {
+							n++
+						}
+						break
 					}
-					b = append(b, s)
+					var target ast.Stmt
+					if v.Label.Obj != nil {
+						if ls, ok := v.Label.Obj.Decl.(*ast.LabeledStmt); ok {
+							target = ls.Stmt
+						}
+					}
+					inside := target != nil && target.Pos() >= body.Pos() && target.End() <= body.End()
+					if target == loop && v.Tok == token.CONTINUE {
+						break
+					}
+					if !inside {
+						n++
+					}
 				}
-				rmErrBody = oneLine(src(is.Cond)) + " => [" + strings.Join(b, "; ") + "]"
 			}
 			return true
 		})
-		// every return of the callback, with the select case it sits in (if any)
-		var walk func(n ast.Node, ctxName string)
-		walk = func(n ast.Node, ctxName string) {
-			ast.Inspect(n, func(x ast.Node) bool {
-				switch v := x.(type) {
-				case *ast.CommClause:
-					name := "default"
-					if v.Comm != nil {
-						name = oneLine(src(v.Comm))
-					}
-					for _, st := range v.Body {
-						walk(st, name)
-					}
-					return false
-				case *ast.ReturnStmt:
-					r := []string{}
-					for _, e := range v.Results {
-						r = append(r, oneLine(src(e)))
-					}
-					rets = append(rets, strings.Join(r, ",")+"@"+ctxName)
-				case *ast.FuncLit:
-					if v != visitLit {
-						return false
+	}
+	visit(body, false)
+	return n
+}
+
+// =====================================================================================================
+// the retention scanner
+// =====================================================================================================
+
+type rtRet struct {
+	found bool
+
+	// DoScan
+	cutoffShape          string
+	cutoffAtScanLevel    bool
+	cutoffIsConfigPeriod bool
+	visitCalls           int
+	visitErrPropagated   bool
+	sweepLoop            string
+	sweepLoopExits       int
+	removeGuard          string
+	removeCalls          int
+	removeOnVisitedStore bool
+	removeArgs           string
+	removeErrEffect      string
+	callbackReturns      []string
+	doScanWaits          []rtWait
+	flowRecognised       bool
+	// Start
+	startWaits            []rtWait
+	disableCond           string
+	disableIsConfigPeriod bool
+	disablePath           string
+	startLoops            int
+	loopInfinite          bool
+	loopOrder             []string
+	throttleGuard         string
+	scanErrEffect         string
+	startScanCalls        int
+	afterLoop             string
+	closesOfJoinChan      int
+	// Join
+	joinWaits []string
+}
+
+// rtCfgField: the unexported field of the scanner that is initialised from <config>.<exported>.
+func (p *rtPkg) cfgField(exported string) string {
+	name, n := "", 0
+	for _, f := range p.files {
+		ast.Inspect(f, func(x ast.Node) bool {
+			switch v := x.(type) {
+			case *ast.KeyValueExpr:
+				if k, ok := v.Key.(*ast.Ident); ok {
+					if se, ok := rtUnparen(v.Value).(*ast.SelectorExpr); ok && se.Sel.Name == exported {
+						name = k.Name
+						n++
 					}
 				}
-				return true
-			})
-		}
-		walk(visitLit.Body, "-")
-	}
-	g.def("rangeLoop", "Option String", optS(rangeOver, rangeOK), "the loop of the callback over its argument")
-	g.def("removeGuard", "Option String", optS(guard, guardOK), "condition of the `if` whose then-branch calls RemoveMessage")
-	g.def("removeCall", "Option String", optS(rmArgs, rmOK), "the RemoveMessage call of the callback")
-	g.def("removeCalls", "Nat", fmt.Sprint(nRemove), "number of RemoveMessage calls in the callback")
-	g.def("removeInElse", "Bool", fmt.Sprint(elseHasRemove), "a RemoveMessage call in the else branch (messages not before the cutoff)")
-	g.def("removeErrBranch", "String", leanStr(rmErrBody), "non-logging statements executed when RemoveMessage returns an error")
-	g.def("callbackReturns", "List String", strList(rets), "every return statement of the callback as value@select-case")
-
-	var dsSel, stSel []selInfo
-	var dsBare, stBare []string
-	if ds != nil {
-		dsSel = selects(ds.Body)
-		dsBare = bareBlocking(ds.Body)
-	}
-	if st != nil {
-		stSel = selects(st.Body)
-		stBare = bareBlocking(st.Body)
-	}
-	g.def("doScanSelects", "List (Bool × String × String)", selList(dsSel), "every select of DoScan: (has a ctx.Done case, body of that case without logging, the other cases)")
-	g.def("doScanBareBlocking", "List String", strList(dsBare), "blocking operations of DoScan outside a select (receive, send, Sleep, Wait, Lock)")
-	g.def("startSelects", "List (Bool × String × String)", selList(stSel), "every select of Start")
-	g.def("startBareBlocking", "List String", strList(stBare), "blocking operations of Start outside a select")
-
-	// ---- Start: the disabling test
-	disCond, disOK := "", false
-	disBody := ""
-	loopStmts := []string{}
-	throttle := ""
-	if st != nil {
-		for _, s := range st.Body.List {
-			if is, ok := s.(*ast.IfStmt); ok && !disOK && is.Init == nil {
-				disCond, disOK = oneLine(src(is.Cond)), true
-				b := []string{}
-				for _, x := range is.Body.List {
-					t := oneLine(src(x))
-					if strings.HasPrefix(t, "slog.") {
-						continue
+			case *ast.AssignStmt:
+				if len(v.Lhs) == 1 && len(v.Rhs) == 1 {
+					if l, ok := v.Lhs[0].(*ast.SelectorExpr); ok {
+						if se, ok := rtUnparen(v.Rhs[0]).(*ast.SelectorExpr); ok && se.Sel.Name == exported {
+							name = l.Sel.Name
+							n++
+						}
 					}
-					b = append(b, t)
 				}
-				disBody = strings.Join(b, "; ")
 			}
-			if ls, ok := s.(*ast.LabeledStmt); ok {
-				if fs, ok := ls.Stmt.(*ast.ForStmt); ok && fs.Cond == nil && fs.Init == nil && fs.Post == nil {
-					for _, x := range fs.Body.List {
-						switch v := x.(type) {
-						case *ast.IfStmt:
-							if containsCall(v.Cond, ".DoScan") || (v.Init != nil && containsCall(v.Init, ".DoScan")) {
-								loopStmts = append(loopStmts, "scan")
-							} else {
-								loopStmts = append(loopStmts, "if "+oneLine(src(v.Cond)))
-								throttle = oneLine(src(v.Cond))
-							}
-						case *ast.SelectStmt:
-							loopStmts = append(loopStmts, "select")
-						case *ast.AssignStmt:
-							loopStmts = append(loopStmts, oneLine(src(v)))
-						default:
-							loopStmts = append(loopStmts, "other")
+			return true
+		})
+	}
+	if n != 1 {
+		return ""
+	}
+	return name
+}
+
+func rtLit(e ast.Expr, val string) bool {
+	l, ok := rtUnparen(e).(*ast.BasicLit)
+	return ok && l.Kind == token.INT && l.Value == val
+}
+
+func rtNegOne(e ast.Expr) bool {
+	if u, ok := rtUnparen(e).(*ast.UnaryExpr); ok && u.Op == token.SUB {
+		return rtLit(u.X, "1")
+	}
+	return false
+}
+
+// cutoff: classify the expression handed to Before: time.Now().Add(<negated period field>).
+func (p *rtPkg) cutoff(e ast.Expr, env *rtEnv) (shape, field string, now ast.Node) {
+	x, args, renv, ok := p.methodCall(e, env, "Add")
+	if !ok || len(args) != 1 {
+		return "unknown", "", nil
+	}
+	nr, _ := p.resolve(x, renv)
+	if nargs, _, ok := p.pkgCall(nr, renv, "time", "Now"); !ok || len(nargs) != 0 {
+		return "unknown", "", nil
+	}
+	a, aenv := p.resolve(args[0], renv)
+	if f := p.field(a, aenv); f != "" {
+		return "nowPlusPeriod", f, nr
+	}
+	switch v := a.(type) {
+	case *ast.UnaryExpr:
+		if v.Op == token.SUB {
+			if f := p.field(v.X, aenv); f != "" {
+				return "nowMinusPeriod", f, nr
+			}
+		}
+	case *ast.BinaryExpr:
+		if v.Op == token.MUL {
+			if rtNegOne(v.X) {
+				if f := p.field(v.Y, aenv); f != "" {
+					return "nowMinusPeriod", f, nr
+				}
+			}
+			if rtNegOne(v.Y) {
+				if f := p.field(v.X, aenv); f != "" {
+					return "nowMinusPeriod", f, nr
+				}
+			}
+		}
+	}
+	return "unknown", "", nr
+}
+
+// msgCall: e resolves to <loop message>.<name>() with no arguments.
+func (p *rtPkg) msgCall(e ast.Expr, env *rtEnv, name string, msg *ast.Object) bool {
+	x, args, renv, ok := p.methodCall(e, env, name)
+	return ok && len(args) == 0 && msg != nil && p.obj(x, renv) == msg
+}
+
+func rtAnalyseRetention() *rtRet {
+	r := &rtRet{cutoffShape: "unknown", sweepLoop: "unknown", removeGuard: "unknown", removeArgs: "unknown",
+		removeErrEffect: "unknown", disableCond: "unknown", disablePath: "unknown", throttleGuard: "unknown",
+		scanErrEffect: "unknown", afterLoop: "unknown", sweepLoopExits: 999}
+	p := rtLoadPkg("pkg/storage")
+	ds := p.method("RetentionScanner", "DoScan")
+	st := p.method("RetentionScanner", "Start")
+	jn := p.method("RetentionScanner", "Join")
+	if ds == nil || st == nil || jn == nil {
+		return r
+	}
+	r.found = true
+	periodField := p.cfgField("RetentionPeriod")
+	sleepField := p.cfgField("RetentionSleep")
+
+	// ------------------------------------------------------------------ DoScan
+	w := rtWalkBody(p, ds.Body, nil)
+	var cbBody *ast.BlockStmt
+	var cbParams *ast.FieldList
+	var cbLit *ast.FuncLit
+	var cbEnv *rtEnv
+	storeField := ""
+	visitLeaf := -1
+	for i := range w.leaves {
+		l := &w.leaves[i]
+		for _, ce := range rtCalls(l.scope()) {
+			if rtCallName(ce) != "VisitMailboxes" {
+				continue
+			}
+			r.visitCalls++
+			visitLeaf = i
+			if se, ok := rtUnparen(ce.Fun).(*ast.SelectorExpr); ok {
+				storeField = p.field(se.X, l.env)
+			}
+			if len(ce.Args) == 1 {
+				a, aenv := p.resolve(ce.Args[0], l.env)
+				if fl, ok := a.(*ast.FuncLit); ok {
+					cbLit, cbBody, cbParams, cbEnv = fl, fl.Body, fl.Type.Params, aenv
+				}
+			}
+		}
+	}
+	if r.visitCalls == 1 && visitLeaf >= 0 {
+		l := w.leaves[visitLeaf]
+		switch v := l.st.(type) {
+		case *ast.ReturnStmt:
+			r.visitErrPropagated = len(v.Results) == 1 && l.owner == 0
+		case *ast.AssignStmt:
+			if len(v.Lhs) == 1 {
+				if id, ok := v.Lhs[0].(*ast.Ident); ok && id.Obj != nil {
+					for _, m := range w.leaves[visitLeaf+1:] {
+						rs, ok := m.st.(*ast.ReturnStmt)
+						if !ok || m.owner != 0 || len(rs.Results) != 1 || rtIdentObj(rs.Results[0]) != id.Obj {
+							continue
+						}
+						rel := m.pc[len(l.pc):]
+						if len(rel) == 1 && p.errHolds(rel[0], id.Obj) {
+							r.visitErrPropagated = true
 						}
 					}
 				}
 			}
 		}
 	}
-	g.def("disableCond", "Option String", optS(disCond, disOK), "condition of the first `if` of Start")
-	g.def("disableBody", "String", leanStr(disBody), "its body without logging")
-	g.def("loopShape", "List String", strList(loopStmts), "statements of retentionLoop")
-	g.def("throttleCond", "String", leanStr(throttle), "the test that makes the loop wait")
-	nScan := 0
-	if st != nil {
-		ast.Inspect(st, func(x ast.Node) bool {
-			if ce, ok := x.(*ast.CallExpr); ok && strings.HasSuffix(src(ce.Fun), ".DoScan") {
-				nScan++
+	role := func(e ast.Expr, env *rtEnv) string {
+		if f := p.field(e, env); f != "" {
+			switch f {
+			case sleepField:
+				return "sleepField"
+			case periodField:
+				return "periodField"
 			}
-			return true
-		})
+			return "otherField"
+		}
+		// time.Minute - time.Since(<kick-off stamp>)
+		if b, ok := func() (*ast.BinaryExpr, bool) { x, _ := p.resolve(e, env); b, ok := x.(*ast.BinaryExpr); return b, ok }(); ok && b.Op == token.SUB {
+			_, benv := p.resolve(e, env)
+			if rtIsPkgSel(b.X, "time", "Minute") {
+				if args, _, ok := p.pkgCall(b.Y, benv, "time", "Since"); ok && len(args) == 1 {
+					return "minuteMinusSince"
+				}
+			}
+		}
+		return "other"
 	}
-	g.def("startScanCalls", "Nat", fmt.Sprint(nScan), "number of DoScan calls in Start")
+	var cw *rtWalk
+	if cbBody != nil && cbParams != nil && len(cbParams.List) == 1 && len(cbParams.List[0].Names) == 1 {
+		snap := cbParams.List[0].Names[0].Obj
+		cw = rtWalkBody(p, cbBody, cbEnv)
+		// RemoveMessage calls: in the callback and (there should be none) in the rest of DoScan
+		type rmSite struct {
+			k  int
+			ce *ast.CallExpr
+		}
+		var sites []rmSite
+		for i := range cw.leaves {
+			for _, ce := range rtCalls(cw.leaves[i].scope()) {
+				if rtCallName(ce) == "RemoveMessage" {
+					sites = append(sites, rmSite{i, ce})
+				}
+			}
+		}
+		r.removeCalls = len(sites)
+		for i := range w.leaves {
+			for _, ce := range rtCalls(w.leaves[i].scope()) {
+				if rtCallName(ce) == "RemoveMessage" {
+					r.removeCalls++
+				}
+			}
+		}
+		if len(sites) == 1 {
+			k, ce := sites[0].k, sites[0].ce
+			l := cw.leaves[k]
+			if len(l.loops) == 1 {
+				if rg, ok := l.loops[0].(*ast.RangeStmt); ok {
+					// the leaf of the range statement itself gives its environment and path condition
+					var rl *rtLeaf
+					for i := range cw.leaves {
+						if cw.leaves[i].st == ast.Stmt(rg) {
+							rl = &cw.leaves[i]
+						}
+					}
+					var msg *ast.Object
+					if v, ok := rg.Value.(*ast.Ident); ok && v.Name != "_" {
+						msg = v.Obj
+					}
+					if rl != nil && msg != nil && snap != nil && p.obj(rg.X, rl.env) == snap && len(rl.pc) == 0 {
+						r.sweepLoop = "rangeOverSnapshot"
+					}
+					r.sweepLoopExits = rtLoopExits(rg, rg.Body)
+					// guard
+					if rl != nil && msg != nil && len(l.pc) == len(rl.pc)+1 {
+						a := l.pc[len(l.pc)-1]
+						if a.cond != nil {
+							for _, m := range []string{"Before", "After"} {
+								x, args, xenv, ok := p.methodCall(a.cond, a.env, m)
+								if !ok || len(args) != 1 {
+									continue
+								}
+								var cut ast.Expr
+								var cenv *rtEnv
+								dateFirst := false
+								if p.msgCall(x, xenv, "Date", msg) {
+									cut, cenv, dateFirst = args[0], xenv, true
+								} else if p.msgCall(args[0], xenv, "Date", msg) {
+									cut, cenv = x, xenv
+								} else {
+									continue
+								}
+								before := (m == "Before") == dateFirst // date < cutoff
+								switch {
+								case before && a.pos:
+									r.removeGuard = "dateBeforeCutoff"
+								case before && !a.pos:
+									r.removeGuard = "dateNotBeforeCutoff"
+								case !before && a.pos:
+									r.removeGuard = "dateAfterCutoff"
+								default:
+									r.removeGuard = "dateNotAfterCutoff"
+								}
+								shape, f, now := p.cutoff(cut, cenv)
+								r.cutoffShape = shape
+								r.cutoffIsConfigPeriod = f != "" && f == periodField
+								if now != nil {
+									in := func(n ast.Node) bool { return now.Pos() >= n.Pos() && now.End() <= n.End() }
+									r.cutoffAtScanLevel = !in(cbLit)
+									for fd := range cw.inlined {
+										if !w.inlined[fd] && in(fd) {
+											r.cutoffAtScanLevel = false
+										}
+									}
+								}
+							}
+						}
+					}
+					// target
+					if se, ok := rtUnparen(ce.Fun).(*ast.SelectorExpr); ok {
+						f := p.field(se.X, l.env)
+						r.removeOnVisitedStore = f != "" && f == storeField
+					}
+					if len(ce.Args) == 2 && p.msgCall(ce.Args[0], l.env, "Mailbox", msg) && p.msgCall(ce.Args[1], l.env, "ID", msg) {
+						r.removeArgs = "mailboxAndIdOfLoopMessage"
+					}
+					r.removeErrEffect = p.errEffect(cw.leaves, k, ce)
+				}
+			}
+		}
+		// returns of the callback
+		set := map[string]bool{}
+		for _, l := range cw.leaves {
+			rs, ok := l.st.(*ast.ReturnStmt)
+			if !ok || l.owner != 0 {
+				continue
+			}
+			val := "other"
+			if len(rs.Results) == 1 {
+				if id, ok := rtUnparen(rs.Results[0]).(*ast.Ident); ok && id.Obj == nil && (id.Name == "true" || id.Name == "false") {
+					val = id.Name
+				}
+			}
+			where := "conditional"
+			switch {
+			case len(l.pc) == 0:
+				where = "plain"
+			case len(l.pc) == 1 && l.pc[0].comm != nil:
+				switch {
+				case l.pc[0].comm.Comm == nil:
+					where = "defaultCase"
+				case p.isDoneRecv(l.pc[0].comm.Comm, l.pc[0].env):
+					where = "ctxDoneCase"
+				default:
+					where = "otherCase"
+				}
+			}
+			set[val+"@"+where] = true
+		}
+		for s := range set {
+			r.callbackReturns = append(r.callbackReturns, s)
+		}
+		sort.Strings(r.callbackReturns)
+	}
+	r.doScanWaits = p.waits(w.leaves, role)
+	if cw != nil {
+		r.doScanWaits = append(r.doScanWaits, p.waits(cw.leaves, role)...)
+	}
+	r.flowRecognised = !w.unknown && cw != nil && !cw.unknown
+
+	// ------------------------------------------------------------------ Join
+	jw := rtWalkBody(p, jn.Body, nil)
+	joinField := ""
+	for _, wt := range p.waits(jw.leaves, nil) {
+		tok := wt.kind
+		if wt.kind == "recv" {
+			if ch := rtRecvChan(wt.leaf.st); ch != nil {
+				if f := p.field(ch, wt.leaf.env); f != "" {
+					joinField = f
+					tok = "recvField"
+				}
+			}
+		}
+		r.joinWaits = append(r.joinWaits, tok)
+	}
+	if jw.unknown {
+		r.joinWaits = append(r.joinWaits, "unknownFlow")
+	}
+
+	// ------------------------------------------------------------------ Start
+	sw := rtWalkBody(p, st.Body, nil)
+	if sw.unknown {
+		r.flowRecognised = false
+	}
+	r.startWaits = p.waits(sw.leaves, role)
+	isCloseJoin := func(s ast.Stmt, env *rtEnv) bool {
+		es, ok := s.(*ast.ExprStmt)
+		if !ok {
+			return false
+		}
+		ce, ok := es.X.(*ast.CallExpr)
+		if !ok || len(ce.Args) != 1 {
+			return false
+		}
+		id, ok := ce.Fun.(*ast.Ident)
+		if !ok || id.Name != "close" || id.Obj != nil {
+			return false
+		}
+		f := p.field(ce.Args[0], env)
+		return f != "" && f == joinField
+	}
+	ast.Inspect(st.Body, func(x ast.Node) bool {
+		if ce, ok := x.(*ast.CallExpr); ok && len(ce.Args) == 1 {
+			if id, ok := ce.Fun.(*ast.Ident); ok && id.Name == "close" && id.Obj == nil {
+				if se, ok := rtUnparen(ce.Args[0]).(*ast.SelectorExpr); ok && joinField != "" && se.Sel.Name == joinField {
+					r.closesOfJoinChan++
+				}
+			}
+		}
+		return true
+	})
+	var loop *ast.ForStmt
+	loopLeaf := -1
+	for i, l := range sw.leaves {
+		switch v := l.st.(type) {
+		case *ast.ForStmt:
+			r.startLoops++
+			if loop == nil {
+				loop, loopLeaf = v, i
+			}
+		case *ast.RangeStmt:
+			r.startLoops++
+		}
+		for _, ce := range rtCalls(l.scope()) {
+			if rtCallName(ce) == "DoScan" {
+				r.startScanCalls++
+			}
+		}
+	}
+	// the disabling test: leaves before the loop reached under exactly one condition on a field compared with 0
+	// cmpZero: relation of <field> to 0 that holds under the atom
+	cmpZero := func(a rtAtom) (string, string) {
+		if a.cond == nil {
+			return "", ""
+		}
+		b, ok := rtUnparen(a.cond).(*ast.BinaryExpr)
+		if !ok {
+			return "", ""
+		}
+		op := b.Op
+		var fe ast.Expr
+		switch {
+		case rtLit(b.Y, "0"):
+			fe = b.X
+		case rtLit(b.X, "0"):
+			fe = b.Y
+			switch op {
+			case token.LSS:
+				op = token.GTR
+			case token.GTR:
+				op = token.LSS
+			case token.LEQ:
+				op = token.GEQ
+			case token.GEQ:
+				op = token.LEQ
+			}
+		default:
+			return "", ""
+		}
+		f := p.field(fe, a.env)
+		if f == "" {
+			return "", ""
+		}
+		if !a.pos {
+			switch op {
+			case token.LSS:
+				op = token.GEQ
+			case token.GTR:
+				op = token.LEQ
+			case token.LEQ:
+				op = token.GTR
+			case token.GEQ:
+				op = token.LSS
+			case token.EQL:
+				op = token.NEQ
+			case token.NEQ:
+				op = token.EQL
+			}
+		}
+		switch op {
+		case token.LEQ:
+			return "leZero", f
+		case token.LSS:
+			return "ltZero", f
+		case token.EQL:
+			return "eqZero", f
+		case token.GTR:
+			return "gtZero", f
+		case token.GEQ:
+			return "geZero", f
+		case token.NEQ:
+			return "neZero", f
+		}
+		return "", ""
+	}
+	if loopLeaf >= 0 {
+		var seq []string
+		lastDisabled := -1
+		for i, l := range sw.leaves {
+			if len(l.pc) != 1 || l.st == nil || l.owner != 0 || len(l.loops) != 0 {
+				continue
+			}
+			rel, f := cmpZero(l.pc[0])
+			if rel != "leZero" && rel != "ltZero" && rel != "eqZero" {
+				continue
+			}
+			r.disableCond = rel
+			r.disableIsConfigPeriod = f != "" && f == periodField
+			lastDisabled = i
+			switch {
+			case rtIsLogging(l.st):
+			case isCloseJoin(l.st, l.env):
+				seq = append(seq, "close")
+			default:
+				if rs, ok := l.st.(*ast.ReturnStmt); ok && len(rs.Results) == 0 {
+					seq = append(seq, "return")
+				} else {
+					seq = append(seq, "other")
+				}
+			}
+		}
+		switch strings.Join(seq, ",") {
+		case "close,return":
+			r.disablePath = "closeJoinChanThenReturn"
+		case "close":
+			// the disabled branch written last: the function ends right after the close
+			if lastDisabled == len(sw.leaves)-1 {
+				r.disablePath = "closeJoinChanThenReturn"
+			}
+		case "return":
+			r.disablePath = "returnWithoutClose"
+		}
+		// after the loop: only logging and one close of the Join channel
+		var after []string
+		for _, l := range sw.leaves[loopLeaf+1:] {
+			if l.st == nil || l.st.Pos() < loop.End() {
+				continue
+			}
+			if !rtSamePc(l.pc, sw.leaves[loopLeaf].pc) {
+				continue // another branch (the disabled path written after the loop)
+			}
+			switch {
+			case rtIsLogging(l.st):
+			case isCloseJoin(l.st, l.env):
+				after = append(after, "close")
+			default:
+				if rs, ok := l.st.(*ast.ReturnStmt); ok && len(rs.Results) == 0 {
+					after = append(after, "return")
+				} else {
+					after = append(after, "other")
+				}
+			}
+		}
+		if a := strings.Join(after, ","); a == "close" || a == "close,return" {
+			r.afterLoop = "closeJoinChan"
+		}
+		r.loopInfinite = loop.Cond == nil
+		// the loop body
+		base := len(sw.leaves[loopLeaf].pc)
+		var stamp *ast.Object
+		var scanErr *ast.Object
+		scanLeaf := -1
+		var scanCall *ast.CallExpr
+		for i := loopLeaf + 1; i < len(sw.leaves); i++ {
+			l := sw.leaves[i]
+			if len(l.loops) == 0 || l.loops[0] != ast.Stmt(loop) {
+				continue
+			}
+			rel := l.pc[base:]
+			if l.st == nil {
+				continue // head of an if / switch
+			}
+			inSelectCase := false
+			for _, a := range rel {
+				if a.comm != nil {
+					inSelectCase = true
+				}
+			}
+			if inSelectCase {
+				continue // accounted for by startWaits
+			}
+			if scanErr != nil {
+				under := false
+				for _, a := range rel {
+					if p.errHolds(a, scanErr) {
+						under = true
+					}
+				}
+				if under {
+					continue // accounted for by scanErrEffect
+				}
+			}
+			tok := "other"
+			switch v := l.st.(type) {
+			case *ast.SelectStmt:
+				hasDefault := false
+				for _, c := range v.Body.List {
+					if c.(*ast.CommClause).Comm == nil {
+						hasDefault = true
+					}
+				}
+				switch {
+				case len(rel) == 0 && hasDefault:
+					tok = "poll"
+				case len(rel) == 0:
+					tok = "wait"
+				case len(rel) == 1 && rel[0].cond != nil:
+					tok = "throttleWait"
+					// since < time.Minute, since = time.Since(stamp)
+					if b, ok := rtUnparen(rel[0].cond).(*ast.BinaryExpr); ok && rel[0].pos {
+						x, y, op := b.X, b.Y, b.Op
+						if rtIsPkgSel(x, "time", "Minute") {
+							x, y = y, x
+							if op == token.GTR {
+								op = token.LSS
+							} else {
+								op = token.ILLEGAL
+							}
+						}
+						if op == token.LSS && rtIsPkgSel(y, "time", "Minute") {
+							if args, aenv, ok := p.pkgCall(x, rel[0].env, "time", "Since"); ok && len(args) == 1 {
+								if o := p.obj(args[0], aenv); o != nil {
+									stamp = o
+									r.throttleGuard = "sinceStampLtMinute"
+								}
+							}
+						}
+					}
+				default:
+					tok = "conditionalWait"
+				}
+			case *ast.AssignStmt:
+				switch {
+				case len(v.Lhs) == 1 && len(v.Rhs) == 1 && len(rel) == 0 && func() bool {
+					args, _, ok := p.pkgCall(v.Rhs[0], l.env, "time", "Since")
+					return ok && len(args) == 1 && v.Tok == token.DEFINE
+				}():
+					tok = "since"
+				case len(v.Lhs) == 1 && len(v.Rhs) == 1 && len(rel) == 0 && v.Tok == token.ASSIGN && func() bool {
+					args, _, ok := p.pkgCall(v.Rhs[0], l.env, "time", "Now")
+					id, isID := v.Lhs[0].(*ast.Ident)
+					return ok && len(args) == 0 && isID && id.Obj != nil && (stamp == nil || id.Obj == stamp)
+				}():
+					tok = "stamp"
+					if stamp == nil {
+						tok = "stampBeforeThrottle"
+					}
+				case v.Tok == token.DEFINE && len(rtCalls(v)) == 0:
+					continue // a pure local definition
+				}
+			}
+			for _, ce := range rtCalls(l.scope()) {
+				if rtCallName(ce) == "DoScan" && len(rel) == 0 && len(ce.Args) == 1 && p.isCtx(ce.Args[0], l.env) {
+					tok = "scan"
+					scanLeaf, scanCall = i, ce
+					if as, ok := l.st.(*ast.AssignStmt); ok && len(as.Lhs) == 1 {
+						if id, ok := as.Lhs[0].(*ast.Ident); ok {
+							scanErr = id.Obj
+						}
+					}
+				}
+			}
+			if tok == "other" && rtIsLogging(l.st) {
+				continue
+			}
+			r.loopOrder = append(r.loopOrder, tok)
+		}
+		if scanLeaf >= 0 {
+			r.scanErrEffect = p.errEffect(sw.leaves, scanLeaf, scanCall)
+		}
+		// the stamp must start as time.Now() before the loop
+		if stamp != nil {
+			ok := false
+			if as, isAs := stamp.Decl.(*ast.AssignStmt); isAs && as.Pos() < loop.Pos() {
+				for k, lh := range as.Lhs {
+					if id, isID := lh.(*ast.Ident); isID && id.Obj == stamp && len(as.Lhs) == len(as.Rhs) {
+						if args, _, isNow := p.pkgCall(as.Rhs[k], nil, "time", "Now"); isNow && len(args) == 0 {
+							ok = true
+						}
+					}
+				}
+			}
+			if !ok || p.assigns[stamp] != 2 {
+				r.throttleGuard = "unknown"
+			}
+		}
+	}
+	return r
+}
+
+func rtBool(b bool) string {
+	if b {
+		return "true"
+	}
+	return "false"
+}
+
+func extractRetention() {
+	g := gen("Retention")
+	r := rtAnalyseRetention()
+	wl := "List (String × String × List String)"
+	g.def("flowRecognised", "Bool", rtBool(r.found && r.flowRecognised), "DoScan, its visitor callback, Start and Join were found and contain no goto / fallthrough / type switch (the path conditions below are then exact)")
+	g.def("cutoffShape", "String", leanStr(r.cutoffShape), "the value the removal guard compares dates with, followed through locals / helper parameters: nowMinusPeriod = time.Now().Add(e) with e one of -1*f, f*-1, -f for a scanner field f; nowPlusPeriod = Add(f); unknown")
+	g.def("cutoffAtScanLevel", "Bool", rtBool(r.cutoffAtScanLevel), "that time.Now() is evaluated once per DoScan, outside the visitor callback")
+	g.def("cutoffIsConfigPeriod", "Bool", rtBool(r.cutoffIsConfigPeriod), "the field f of the cutoff is the field the constructor initialises from <config>.RetentionPeriod")
+	g.def("visitCalls", "Nat", fmt.Sprint(r.visitCalls), "calls of VisitMailboxes in DoScan (unexported helpers followed)")
+	g.def("visitErrPropagated", "Bool", rtBool(r.visitErrPropagated), "DoScan returns the error VisitMailboxes returned, under exactly the condition `that error != nil` (or returns the call itself)")
+	g.def("sweepLoop", "String", leanStr(r.sweepLoop), "rangeOverSnapshot: the unique RemoveMessage call sits in exactly one loop, a `range` with a value variable over the callback's own parameter, reached unconditionally")
+	g.def("sweepLoopExits", "Nat", fmt.Sprint(r.sweepLoopExits), "statements in the body of that loop that leave it (return, break out of it, goto, continue of an outer loop)")
+	g.def("removeGuard", "String", leanStr(r.removeGuard), "the whole path condition of the RemoveMessage call inside the loop body, if it is one Before/After comparison of <loop message>.Date() with the cutoff: dateBeforeCutoff (d.Before(c) or c.After(d)) | dateNotAfterCutoff | dateAfterCutoff | dateNotBeforeCutoff | unknown")
+	g.def("removeCalls", "Nat", fmt.Sprint(r.removeCalls), "RemoveMessage calls in DoScan and its callback (unexported helpers followed)")
+	g.def("removeOnVisitedStore", "Bool", rtBool(r.removeOnVisitedStore), "RemoveMessage is called on the same scanner field VisitMailboxes is called on")
+	g.def("removeArgs", "String", leanStr(r.removeArgs), "mailboxAndIdOfLoopMessage: the arguments are (<loop message>.Mailbox(), <loop message>.ID())")
+	g.def("removeErrEffect", "String", leanStr(r.removeErrEffect), "what is reachable under `RemoveMessage's error != nil`: logOnly (logging chains, plain continue) | ignored | leavesLoop | returns | other | unknown")
+	g.def("callbackReturns", "List String", strList(r.callbackReturns), "the set of return statements of the callback as value@where, where = plain (unconditional) | ctxDoneCase (directly in a select case receiving from <context.Context parameter>.Done()) | otherCase | defaultCase | conditional")
+	g.def("doScanWaits", wl, rtWaitList(r.doScanWaits), "every blocking operation of DoScan and its callback: (kind, what the ctx.Done() case does, the other cases); kind = select | recv | send | sleep | wgWait | lock | join; sleepField = the field initialised from <config>.RetentionSleep")
+	g.def("startWaits", wl, rtWaitList(r.startWaits), "every blocking operation of Start, in order; breakLoop = a break labelled with Start's outermost loop; minuteMinusSince = time.Minute - time.Since(x)")
+	g.def("disableCond", "String", leanStr(r.disableCond), "the relation to literal 0 under which Start leaves before its loop: leZero | ltZero | eqZero | unknown")
+	g.def("disableIsConfigPeriod", "Bool", rtBool(r.disableIsConfigPeriod), "the field of that test is the field initialised from <config>.RetentionPeriod")
+	g.def("disablePath", "String", leanStr(r.disablePath), "what Start does under that condition, logging ignored: closeJoinChanThenReturn (close of the channel field Join receives from, then return) | returnWithoutClose | unknown")
+	g.def("startLoops", "Nat", fmt.Sprint(r.startLoops), "loops in Start")
+	g.def("loopInfinite", "Bool", rtBool(r.loopInfinite), "Start's loop has no condition")
+	g.def("loopOrder", "List String", strList(r.loopOrder), "the unconditional steps of one turn of Start's loop in order (logging, pure local definitions, select-case bodies and the scan's error branch left out): since = x := time.Since(..) | throttleWait = a select under one condition | stamp = <stamp> = time.Now() | scan = DoScan(<ctx parameter>) | poll = unconditional select with default | wait | other")
+	g.def("throttleGuard", "String", leanStr(r.throttleGuard), "sinceStampLtMinute: the throttle select is entered iff time.Since(<stamp>) < time.Minute, <stamp> being a local set to time.Now() before the loop and re-set only by the `stamp` step")
+	g.def("scanErrEffect", "String", leanStr(r.scanErrEffect), "what Start does with DoScan's error: logOnly | ignored | leavesLoop | returns | other | unknown")
+	g.def("startScanCalls", "Nat", fmt.Sprint(r.startScanCalls), "DoScan calls in Start")
+	g.def("afterLoop", "String", leanStr(r.afterLoop), "closeJoinChan: after the loop Start only logs and closes the channel field Join receives from")
+	g.def("closesOfJoinChan", "Nat", fmt.Sprint(r.closesOfJoinChan), "close(<that field>) calls in Start, deferred ones included")
+	g.def("joinWaits", "List String", strList(r.joinWaits), "blocking operations of Join: recvField = a receive from a scanner field (the Join channel)")
+}
+
+// clauseEffectLast: like clauseEffect, for a case body that may do other things first: the effect of its last
+// non-logging statement.
+func (p *rtPkg) clauseEffectLast(body []ast.Stmt, loops []ast.Stmt) string {
+	for i := len(body) - 1; i >= 0; i-- {
+		if rtIsLogging(body[i]) {
+			continue
+		}
+		return p.clauseEffect(body[i:i+1], loops)
+	}
+	return "fallsThrough"
+}
+
+// rtSamePc: the same path condition (same condition nodes with the same polarity, same select cases).
+func rtSamePc(a, b []rtAtom) bool {
+	if len(a) != len(b) {
+		return false
+	}
+	for i := range a {
+		if a[i].cond != b[i].cond || a[i].pos != b[i].pos || a[i].comm != b[i].comm || a[i].opaque != b[i].opaque {
+			return false
+		}
+	}
+	return true
 }
